@@ -71,7 +71,16 @@ def adapt_inline(
     var_names: Dict[Var, str],
     node_name: str,
 ) -> List[onnx.NodeProto]:
-    source_version = max({v for d, v in node.opset_req if d in ("", "ai.onnx")})
+    # The version the inlined model was written for (not ``node.opset_req``,
+    # which also contains the internal minimum opset).
+    source_version = max(
+        {
+            imp.version
+            for imp in node.model.opset_import
+            if imp.domain in ("", "ai.onnx")
+        },
+        default=target_opsets[""],
+    )
     target_version = target_opsets[""]
 
     # convert_version fails if the inlined model does not import the default domain
